@@ -258,6 +258,13 @@ func deserializeCompiledModule(wazeroVersion string, reader io.ReadCloser) (cm *
 			}
 		}
 		cm.executable = executable
+	} else {
+		// The checksum is written for an empty executable, too.
+		if _, err = io.ReadFull(reader, eightBytes[:4]); err != nil {
+			return nil, false, fmt.Errorf("compilationcache: could not read checksum: %v", err)
+		} else if checksum, expected := binary.LittleEndian.Uint32(eightBytes[:4]), crc32.Checksum(nil, crc); expected != checksum {
+			return nil, false, fmt.Errorf("compilationcache: checksum mismatch (expected %d, got %d)", expected, checksum)
+		}
 	}
 
 	if _, err := io.ReadFull(reader, eightBytes[:1]); err != nil {
